@@ -18,6 +18,10 @@ package watermark
 //@ ghost WmMax (Array Int Int)
 //
 //@ func (*watermark.WaterMark).Begin
+//@ props C13
+//@ body_requires w != nil
+//@ body_ensures true
+//@ after_call send#0: assert sent.ts == ts && !sent.done && sent.waiter == nil
 //@ trusted message to the consumer goroutine; effect stated on the ghost call-order state (C13)
 //@ requires ts >= WmMax[ref(w)]
 //@ assigns WmOpen, WmMax
@@ -25,6 +29,10 @@ package watermark
 //@ ensures WmMax == store(old(WmMax), ref(w), ts)
 //
 //@ func (*watermark.WaterMark).Done
+//@ props C13
+//@ body_requires w != nil
+//@ body_ensures true
+//@ after_call send#0: assert sent.ts == ts && sent.done && sent.waiter == nil
 //@ trusted message to the consumer goroutine; effect stated on the ghost call-order state (C13)
 //@ requires WmOpen[ref(w)][ts] > 0
 //@ assigns WmOpen, WmMax
@@ -41,7 +49,21 @@ package watermark
 //@ ensures WmLow == store(old(WmLow), ref(w), r)
 //@ ensures forall(Int(t), WmOpen[ref(w)][t] > 0 ==> r <= t, trig(WmOpen[ref(w)][t]))
 //
+// body: nil is returned only on the fast path (doneUntil >= ts) or when the receive from the request's
+// own channel was the select case taken; the request carries ts and a channel made by this call (open,
+// never sent before); otherwise the context's error is returned. That a closed request channel means
+// doneUntil >= ts is the consumer's invariant (wmClosedOK); the link is FIFO delivery (trusted).
+//@ ghost SelIdx Int
+//@ ghost CtxErr Iface
 //@ func (*watermark.WaterMark).WaitForMark -> err
+//@ props C13
+//@ body_requires w != nil
+//@ body_ensures old(w.doneUntil.v) >= ts ==> err == nil
+//@ body_ensures (old(w.doneUntil.v) < ts && SelIdx == 0) ==> err == nil
+//@ body_ensures (old(w.doneUntil.v) < ts && SelIdx != 0) ==> err == CtxErr
+//@ after_call (context.Context).Err#0: ghost CtxErr = result
+//@ after_call send#0: assert sent.ts == ts && !sent.done && sent.waiter != nil && sent.waiter == waiter && !ChClosed[sent.waiter] && sent.waiter >= old(alloc)
+//@ after_call select#0: ghost SelIdx = selidx
 //@ blocks wait:mark send:watermark.WaterMark.markC
 //@ trusted blocks until the consumer publishes doneUntil >= ts or the context ends (C13 waiter clause)
 //@ assigns WmLow
